@@ -17,6 +17,11 @@ each a necessary condition:
              built (no possibly-unbound read in any of the three configurations);
  R-METRIC    the distance matrix is metric(X, X) with squared=True and the stored
              cell; the constructor multiplies the squared cut-offs by scale^2 on a copy;
+ R-ASCENT    the labelling loop equals the transcription of the documented ascent with
+             path compression (unlabelled points only, stop at a fixed point or at a
+             labelled point, the whole path receives that point's root) modulo the
+             normal form; this is a structural agreement, not a proof of the basin
+             partition;
  R-LABELS    labels_ is the root array; centres are its fixed points;
              cluster_centers_ = X[centres].
 """
@@ -127,8 +132,22 @@ def check(ctx):
             for a in calls["gs"]:
                 cur, wts, dmat, g = a
                 ctx.ob("R-POINTCONSISTENT", f"_gs_next is called with the sample weights, the distance matrix and the Gabriel graph [{cfg}]", wts.term == w.term and g.term.op == "GABRIEL", f"{repr(g.term)[:60]}", site, cfg)
-            # labels / centres
+            # the ascent loop with path compression, against the transcription of the documented algorithm
             lab = ctx.attr(st, o, "labels_")
+            if not cell:
+                def step(interp, args_, kw_, st_, node_, mode=mode):
+                    cur = args_[0]
+                    a0 = (calls["qs"] or calls["gs"])[0]
+                    if calls["qs"]:
+                        nearest = T("getitem", a0[1].term.args[0], cur.term) if a0[1].term.op == "getitem" else a0[1].term
+                        cutv = T("getitem", a0[4].term.args[0], cur.term) if a0[4].term.op == "getitem" else a0[4].term
+                        return V("int", T("QS", cur.term, nearest, a0[2].term, a0[3].term, cutv), shape=())
+                    return V("int", T("GS", cur.term, a0[1].term, a0[2].term, a0[3].term), shape=())
+
+                I2, s2 = ctx.interp(assume=protocols.assume_default), State()
+                ref = ctx.call_func(I2, s2, "ref.quickshift_ref.ascent_labels", integer("N"), V("func", T("step"), func=("builtin", step, "step")))
+                ctx.compare("R-ASCENT", f"labels_: every point of a path receives the root of the point the path ran into [{cfg}]", N, lab, ref, site, cfg)
+            # labels / centres
             I2, s2 = ctx.interp(), State()
             ref = ctx.call_func(I2, s2, "ref.quickshift_ref.centres", X, lab)
             ctx.compare("R-LABELS", f"cluster_centers_idx_ = fixed points of the root array [{cfg}]", N, ctx.attr(st, o, "cluster_centers_idx_"), ref.items[0], site, cfg)
